@@ -29,8 +29,9 @@ func Equal(a, b any) bool { //nolint: gocyclo
 		return true
 	case reflect.Bool:
 		return ra.Bool() == rb.Bool()
-	case reflect.Int, reflect.Int8, reflect.Int16, reflect.Int32, reflect.Int64:
-		return ra.Convert(int64Type).Int() == rb.Convert(int64Type).Int()
+	case reflect.Int, reflect.Int8, reflect.Int16, reflect.Int32, reflect.Int64,
+		reflect.Uint, reflect.Uint8, reflect.Uint16, reflect.Uint32, reflect.Uint64, reflect.Uintptr:
+		return compareInts(ra, rb) == 0
 	case reflect.Float32, reflect.Float64:
 		return ra.Convert(float64Type).Float() == rb.Convert(float64Type).Float()
 	case reflect.String:
@@ -77,8 +78,9 @@ func Less(a, b any) bool {
 	switch joinKind(ra.Kind(), rb.Kind()) {
 	case reflect.Bool:
 		return !ra.Bool() && rb.Bool()
-	case reflect.Int, reflect.Int8, reflect.Int16, reflect.Int32, reflect.Int64:
-		return ra.Convert(int64Type).Int() < rb.Convert(int64Type).Int()
+	case reflect.Int, reflect.Int8, reflect.Int16, reflect.Int32, reflect.Int64,
+		reflect.Uint, reflect.Uint8, reflect.Uint16, reflect.Uint32, reflect.Uint64, reflect.Uintptr:
+		return compareInts(ra, rb) < 0
 	case reflect.Float32, reflect.Float64:
 		return ra.Convert(float64Type).Float() < rb.Convert(float64Type).Float()
 	case reflect.String:
@@ -97,7 +99,8 @@ func joinKind(a, b reflect.Kind) reflect.Kind { //nolint: gocyclo
 		if b == reflect.Array || b == reflect.Slice {
 			return reflect.Slice
 		}
-	case reflect.Int, reflect.Int8, reflect.Int16, reflect.Int32, reflect.Int64:
+	case reflect.Int, reflect.Int8, reflect.Int16, reflect.Int32, reflect.Int64,
+		reflect.Uint, reflect.Uint8, reflect.Uint16, reflect.Uint32, reflect.Uint64, reflect.Uintptr:
 		if isIntKind(b) {
 			return reflect.Int64
 		}
@@ -112,9 +115,51 @@ func joinKind(a, b reflect.Kind) reflect.Kind { //nolint: gocyclo
 	return reflect.Invalid
 }
 
+// compareInts compares two integers of any signed or unsigned width by value.
+func compareInts(a, b reflect.Value) int {
+	au, bu := isUintKind(a.Kind()), isUintKind(b.Kind())
+	switch {
+	case au && bu:
+		return cmpOrdered(a.Uint(), b.Uint())
+	case au:
+		if b.Int() < 0 {
+			return 1
+		}
+		return cmpOrdered(a.Uint(), uint64(b.Int()))
+	case bu:
+		if a.Int() < 0 {
+			return -1
+		}
+		return cmpOrdered(uint64(a.Int()), b.Uint())
+	default:
+		return cmpOrdered(a.Int(), b.Int())
+	}
+}
+
+func cmpOrdered[T int64 | uint64](a, b T) int {
+	switch {
+	case a < b:
+		return -1
+	case a > b:
+		return 1
+	default:
+		return 0
+	}
+}
+
+func isUintKind(k reflect.Kind) bool {
+	switch k {
+	case reflect.Uint, reflect.Uint8, reflect.Uint16, reflect.Uint32, reflect.Uint64, reflect.Uintptr:
+		return true
+	default:
+		return false
+	}
+}
+
 func isIntKind(k reflect.Kind) bool {
 	switch k {
-	case reflect.Int, reflect.Int8, reflect.Int16, reflect.Int32, reflect.Int64:
+	case reflect.Int, reflect.Int8, reflect.Int16, reflect.Int32, reflect.Int64,
+		reflect.Uint, reflect.Uint8, reflect.Uint16, reflect.Uint32, reflect.Uint64, reflect.Uintptr:
 		return true
 	default:
 		return false
